@@ -76,13 +76,16 @@ def main():
     dst = os.path.join(VERIF, "seeded", name)
     os.makedirs(dst, exist_ok=True)
     open(os.path.join(dst, "patch.diff"), "w").write(applied)
-    shutil.copy(demo, os.path.join(dst, "demo.py"))
+    if os.path.abspath(demo) != os.path.abspath(os.path.join(dst, "demo.py")):
+        shutil.copy(demo, os.path.join(dst, "demo.py"))
     meta = {}
     if os.path.exists(os.path.join(src, "meta.json")):
         try:
             meta = json.load(open(os.path.join(src, "meta.json")))
         except Exception:
             meta = {}
+    if "checks_fired" in meta and "checks_fired_when_first_confirmed" not in meta:
+        meta["checks_fired_when_first_confirmed"] = sorted(meta["checks_fired"])
     meta.update({"name": name, "repo_head_when_confirmed": head,
                  "confirmed": {"demo_on_clean_tree_rc": rc_clean, "demo_with_patch_rc": rc_pat,
                                "how": "scratch worktree of /repo HEAD; PYTHONPATH=<wt>/src /venv/bin/python demo.py"},
